@@ -103,7 +103,7 @@ def main():
     budget = a.budget or (120 if tier == 'thorough' else 60)
     def progress(i, r):
         if a.v and r['kind'] != 'smoke' and r['verdict'] != 'unsat': print('   ', r['verdict'], r['tries'], r['name'][:150], flush=True)
-    results = solve.discharge_all(obs, ledger, budget=budget, smoke_budget=(4 if tier == 'thorough' else 1.5), thorough=(tier == 'thorough'), progress=progress, jobs=max(2, (os.cpu_count() or 4) - 3))
+    results = solve.discharge_all(obs, ledger, budget=budget, smoke_budget=(4 if tier == 'thorough' else 1.5), thorough=(tier == 'thorough' or a.update_ledger), progress=progress, jobs=max(2, (os.cpu_count() or 4) - 3))
     by_name = {o['name']: o for o in obs}
     proved, refuted, undecided, vacuous, unreachable = [], [], [], [], []
     for r in results:
@@ -114,9 +114,16 @@ def main():
         {'unsat': proved, 'sat': refuted}.get(r['verdict'], undecided).append(r)
     real = [r for r in results if r['kind'] != 'smoke']
     regressions, flakes, open_known, open_new = [], [], [], []
+    fn_status = {}      # function (unit:qualified name) -> were all its obligations discharged on the reference tree?
+    for name_, le_ in ledger.d.items():
+        fn_ = name_.split('#', 1)[0]; fn_status[fn_] = fn_status.get(fn_, True) and le_.get('verdict') == 'unsat'
     for r in undecided:
         le = ledger.get(r['name'])
-        if le is None: open_new.append(r)
+        if le is None:
+            # an obligation the reference tree did not have (the function gained a path, a loop, a call): if every obligation of that function was
+            # discharged there, the function as a whole no longer verifies -> regression; functions that were never fully proved stay 'new'
+            if fn_status.get(r['name'].split('#', 1)[0]): r['new_in_proved_function'] = True; regressions.append(r)
+            else: open_new.append(r)
         elif le.get('verdict') != 'unsat': open_known.append(r)
         elif le.get('hash') == r['hash']: flakes.append(r)
         else: regressions.append(r)
@@ -162,10 +169,14 @@ def main():
         k = known_match(known, prop, key)
         if k: known_hits.append((k, key)); continue
         le = ledger.get(r['name'])
-        if r['verdict'] != 'sat' and le is None: continue
-        why = ('refuted: the solver produced a counter-model of the verification condition' if r['verdict'] == 'sat' else
-               'regression: this obligation was discharged on the reference tree; on the current tree its verification condition changed and is no longer provable '
-               f"(solver answers {[t[1] for t in r['tries']]})")
+        if r['verdict'] != 'sat' and le is None and not r.get('new_in_proved_function'): continue
+        if r['verdict'] == 'sat': why = 'refuted: the solver produced a counter-model of the verification condition'
+        elif r.get('new_in_proved_function'):
+            why = ('regression: every obligation of this function was discharged on the reference tree; on the current tree the function generates this further obligation and it is not provable '
+                   f"(solver answers {[t[1] for t in r['tries']]})")
+        else:
+            why = ('regression: this obligation was discharged on the reference tree; on the current tree its verification condition changed and is no longer provable '
+                   f"(solver answers {[t[1] for t in r['tries']]})")
         path = write_obligation_replay(r, why)
         violations.append((path, f"{r['name']} -- {why}", '' if have_input else ' no-failing-input-found'))
     for name in missing:
